@@ -166,6 +166,7 @@ def gen_tables(logic):
     if Meta.quantified:
         for q in L.Quantifier:
             rows = []
+            hung = False
             s = L.Quantified(q, x, L.Predicated(F, (x,)))
             for n in range(0, 4):
                 cs = [L.Constant(i, 0) for i in range(n)]
@@ -182,10 +183,16 @@ def gen_tables(logic):
                     except Exception as e:
                         r = '!' + type(e).__name__
                     rows.append([[tup[i].name for i in order], r])
+                    if r == '!Hang':
+                        hung = True
+                        break
+                if hung:
+                    break
             out[q.name] = rows
     if Meta.modal:
         for o in (L.Operator.Possibility, L.Operator.Necessity):
             rows = []
+            hung = False
             s = L.Operated(o, (A,))
             for n in range(0, 4):
                 for tup in itertools.product(vals, repeat=n):
@@ -202,6 +209,11 @@ def gen_tables(logic):
                     except Exception as e:
                         seq, r = [x.name for x in tup], '!' + type(e).__name__
                     rows.append([seq, r])
+                    if r == '!Hang':
+                        hung = True
+                        break
+                if hung:
+                    break
             out[o.name] = rows
     return out
 
@@ -263,7 +275,7 @@ def run_case(registry, case, want_data=True):
     m = logic.Model()
     out = dict(err=None)
     try:
-        with time_limit(10):
+        with time_limit(4):
             for i, op in enumerate(case['ops']):
                 try:
                     apply_op(m, op)
